@@ -8,6 +8,10 @@
    Repaired = all of them = /repo HEAD; the main theorems are about it (stated for every variant that has the flags
    a theorem needs).  NoHACheck / Unreserved / ReserveOnly / GuardOnly / Defective lack some repairs and only appear in the `_refuted` theorems, which record
    what each fix removed.
+   The AC-Cookie is an opaque token: e = (e_gen, e_val, e_grp) treats the cookie manager as a black box; the cookie
+   theorems are proved for every lawful [scheme] (byte layout of cookie and MACed message), /repo HEAD's layout
+   (generate / validate = head_scheme) being one instance, and every lawful scheme refines the layout-free
+   specification [ideal_validate] the correspondence checks the implementation against.
    WHICH free id a PADR gets is not constrained by the property: PADR / PBEGIN carry a [choice] — Policy (HEAD's
    sequential counter), or an observed answer (Chose c / Refused) that the step accepts only when admissible.  Every
    theorem that quantifies over ops / histories covers every choice.
@@ -80,6 +84,56 @@ Example C04_cookie_sound_nonvacuous_noninjective :
 Proof. exact cookie_sound_nonvacuous_noninjective. Qed.
 Print Assumptions C04_cookie_sound_nonvacuous_noninjective.
 
+(* ---- the layout is a free choice: the same for EVERY lawful cookie scheme ---- *)
+Theorem C04_scheme_roundtrip : forall L H, lawful L -> forall ttl now_ns now_s t, (forall d, length (H d) = 32%nat) ->
+  svalidate L H ttl now_ns (sgenerate L H now_s t) t = true <->
+  (now_ns - Z.of_N (now_s mod two32) * ns_per_s <= ttl)%Z.
+Proof. exact scheme_roundtrip. Qed.
+Print Assumptions C04_scheme_roundtrip.
+
+(* accepted => byte for byte the cookie this BNG issued for the same tuple, within its lifetime *)
+Theorem C04_scheme_sound : forall L H, lawful L -> forall ttl now c t issued,
+  (forall tag tsb, sc_unpack L c = Some (tag, tsb) -> tag = H (sc_msg L t tsb) ->
+                   In (sc_msg L t tsb) (map (smsg L) issued)) ->
+  Forall wf_issue issued -> wf_tuple t ->
+  svalidate L H ttl now c t = true ->
+  exists ts, In (t, ts) issued /\ (now - Z.of_N ts * ns_per_s <= ttl)%Z /\ c = scookie L H (t, ts).
+Proof. exact scheme_sound. Qed.
+Print Assumptions C04_scheme_sound.
+
+(* every lawful scheme refines the layout-free specification over the cookies actually handed out: accepted iff
+   the presented bytes are one of the issued cookies, presented by the tuple it was issued for, within its lifetime.
+   The correspondence checks the implementation against [ideal_validate] with the implementation's own cookies. *)
+Theorem C04_scheme_refines_ideal : forall L H, lawful L -> forall ttl now c t issued, (forall d, length (H d) = 32%nat) ->
+  (forall tag tsb, sc_unpack L c = Some (tag, tsb) -> tag = H (sc_msg L t tsb) ->
+                   In (sc_msg L t tsb) (map (smsg L) issued)) ->
+  Forall wf_issue issued -> wf_tuple t ->
+  svalidate L H ttl now c t = ideal_validate (cookies_of L H issued) ttl now c t.
+Proof. exact scheme_refines_ideal. Qed.
+Print Assumptions C04_scheme_refines_ideal.
+
+(* /repo HEAD's layout is one lawful scheme (and is [validate] / [generate] above); ts|tag with the message
+   ts|mac|vlans is another *)
+Theorem C04_head_scheme_lawful : lawful head_scheme /\
+  (forall H ttl now c t, svalidate head_scheme H ttl now c t = validate H ttl now c t) /\
+  (forall H now t, (forall d, length (H d) = 32%nat) -> sgenerate head_scheme H now t = generate H now t).
+Proof. exact (conj head_scheme_lawful (conj head_scheme_validate head_scheme_generate)). Qed.
+Print Assumptions C04_head_scheme_lawful.
+
+Theorem C04_alt_scheme_lawful : lawful alt_scheme.
+Proof. exact alt_scheme_lawful. Qed.
+Print Assumptions C04_alt_scheme_lawful.
+
+Example C04_alt_scheme_nonvacuous :
+  let e := mk_env alt_scheme toyH 60000000000 1000 1000500000000 (fun _ => true) in
+  let ck t := add_tag TagACCookie (sgenerate alt_scheme toyH 1000 t) in
+  match run Repaired e st0 [PADI tA; PADR tA (ck tA) Policy; PADR tB (ck tA) Policy; PADR tB (ck tB) (Chose 9)] with
+  | Some (_, [OPado c; OPads 1 0; ONone; OPads 9 1]) => c = sgenerate alt_scheme toyH 1000 tA
+  | _ => False
+  end.
+Proof. exact alt_scheme_history. Qed.
+Print Assumptions C04_alt_scheme_nonvacuous.
+
 (* wrong length (all 36 truncations, any extension) is rejected, whatever H is *)
 Theorem C04_cookie_wrong_length : forall H ttl now c t, validate H ttl now c t = true -> length c = 36%nat.
 Proof. exact validate_length. Qed.
@@ -138,12 +192,14 @@ Theorem C04_parse_tags_terminates : forall p, parse_tags p <> OutOfFuel /\ parse
 Proof. exact parse_tags_terminates. Qed.
 Print Assumptions C04_parse_tags_terminates.
 
-(* PADI -> PADO cookie -> PADR by the same tuple within the lifetime is admitted *)
-Theorem C04_padi_padr_roundtrip : forall v e s t s' c, (forall d, length (e_H e d) = 32%nat) ->
-  step v e s (PADI t) = Some (s', OPado c) ->
-  (e_now_ns e - Z.of_N (e_now_s e mod two32) * ns_per_s <= e_ttl e)%Z ->
+(* PADI -> PADO cookie -> PADR by the same tuple within the lifetime is admitted, for every lawful scheme *)
+Theorem C04_padi_padr_roundtrip : forall v L H ttl now_s now_ns grp s t s' c, lawful L ->
+  (forall d, length (H d) = 32%nat) ->
+  step v (mk_env L H ttl now_s now_ns grp) s (PADI t) = Some (s', OPado c) ->
+  N.of_nat (length c) < 65536 ->
+  (now_ns - Z.of_N (now_s mod two32) * ns_per_s <= ttl)%Z ->
   exists tg, parse_tags (add_tag TagACCookie c) = Ok tg /\
-    validate (e_H e) (e_ttl e) (e_now_ns e) (t_cookie tg) t = true.
+    e_val (mk_env L H ttl now_s now_ns grp) (t_cookie tg) t = true.
 Proof. exact padi_padr_roundtrip. Qed.
 Print Assumptions C04_padi_padr_roundtrip.
 
@@ -153,13 +209,13 @@ Print Assumptions C04_padi_padr_roundtrip.
 Theorem C04_padr_needs_cookie : forall v e s t p oc s' sid uid,
   step v e s (PADR t p oc) = Some (s', OPads sid uid) ->
   exists tg, parse_tags p = Ok tg /\
-    validate (e_H e) (e_ttl e) (e_now_ns e) (t_cookie tg) t = true /\ e_grp e t = true.
+    e_val e (t_cookie tg) t = true /\ e_grp e t = true.
 Proof. exact padr_needs_cookie. Qed.
 Print Assumptions C04_padr_needs_cookie.
 
 (* ... and a PADR without such a cookie changes nothing at all *)
 Theorem C04_padr_rejected_no_state : forall v e s t p oc s' r, step v e s (PADR t p oc) = Some (s', r) ->
-  (forall tg, parse_tags p = Ok tg -> validate (e_H e) (e_ttl e) (e_now_ns e) (t_cookie tg) t = false) ->
+  (forall tg, parse_tags p = Ok tg -> e_val e (t_cookie tg) t = false) ->
   s' = s /\ r = ONone.
 Proof. exact padr_rejected_no_state. Qed.
 Print Assumptions C04_padr_rejected_no_state.
@@ -168,53 +224,61 @@ Print Assumptions C04_padr_rejected_no_state.
 Theorem C04_pbegin_needs_cookie : forall v e s t p oc s' sid uid,
   step v e s (PBEGIN t p oc) = Some (s', OPend sid uid) ->
   exists tg, parse_tags p = Ok tg /\
-    validate (e_H e) (e_ttl e) (e_now_ns e) (t_cookie tg) t = true /\ e_grp e t = true.
+    e_val e (t_cookie tg) t = true /\ e_grp e t = true.
 Proof. exact pbegin_needs_cookie. Qed.
 Print Assumptions C04_pbegin_needs_cookie.
 
 Theorem C04_pbegin_rejected_no_state : forall v e s t p oc s' r, step v e s (PBEGIN t p oc) = Some (s', r) ->
-  (forall tg, parse_tags p = Ok tg -> validate (e_H e) (e_ttl e) (e_now_ns e) (t_cookie tg) t = false) ->
+  (forall tg, parse_tags p = Ok tg -> e_val e (t_cookie tg) t = false) ->
   s' = s /\ r = ONone.
 Proof. exact pbegin_rejected_no_state. Qed.
 Print Assumptions C04_pbegin_rejected_no_state.
 
 (* in ANY table state (any earlier history, this very PADR already answered or not) a PADR whose cookie
    has outlived the lifetime creates nothing, in every variant *)
-Theorem C04_padr_expired_no_state : forall v e s t p oc tg a b c4 d s' r,
-  parse_tags p = Ok tg -> skipn 32 (t_cookie tg) = [a; b; c4; d] ->
-  (e_ttl e < e_now_ns e - Z.of_N (be32 a b c4 d) * ns_per_s)%Z ->
+Theorem C04_padr_expired_no_state : forall v e s t p oc tg L H ttl now tag tsb s' r,
+  (forall c t', e_val e c t' = true -> svalidate L H ttl now c t' = true) ->
+  parse_tags p = Ok tg -> sc_unpack L (t_cookie tg) = Some (tag, tsb) ->
+  (ttl < now - Z.of_N (ts_of tsb) * ns_per_s)%Z ->
   step v e s (PADR t p oc) = Some (s', r) -> s' = s /\ r = ONone.
 Proof. exact padr_expired_no_state. Qed.
 Print Assumptions C04_padr_expired_no_state.
 
 (* composite: a session is created only for a cookie this BNG issued, within its lifetime, for the same MAC
-   address and VLAN tags.  Premise 1 is H_mac_unforgeable for the ONE (message, tag) pair this PADR presents: the
-   tag is the first 32 bytes of the AC-Cookie ParseTags extracts, the message is the one Validate recomputes from
-   the sender's tuple and the cookie's timestamp bytes.  Nothing is assumed about other messages or tags. *)
-Theorem C04_admission : forall v e s t p oc s' sid uid issued,
-  (forall tg, parse_tags p = Ok tg -> firstn 32 (t_cookie tg) = e_H e (macd t (t_cookie tg)) ->
-              In (macd t (t_cookie tg)) (map enc_issue issued)) ->
+   address and VLAN tags — and the cookie in the PADR is, byte for byte, the cookie that was issued.  For EVERY
+   lawful cookie scheme L: premise 2 says the component's validator accepts no more than L's Validate at this
+   moment; premise 3 is H_mac_unforgeable for the ONE (message, tag) pair this PADR presents (tag and timestamp
+   bytes as L unpacks them from the AC-Cookie).  Nothing is assumed about other messages or tags. *)
+Theorem C04_admission : forall v e s t p oc s' sid uid L H ttl now issued, lawful L ->
+  (forall c t', e_val e c t' = true -> svalidate L H ttl now c t' = true) ->
+  (forall tg tag tsb, parse_tags p = Ok tg -> sc_unpack L (t_cookie tg) = Some (tag, tsb) ->
+                      tag = H (sc_msg L t tsb) -> In (sc_msg L t tsb) (map (smsg L) issued)) ->
   Forall wf_issue issued -> wf_tuple t ->
   step v e s (PADR t p oc) = Some (s', OPads sid uid) ->
-  exists ts, In (t, ts) issued /\ (e_now_ns e - Z.of_N ts * ns_per_s <= e_ttl e)%Z.
+  exists ts tg, parse_tags p = Ok tg /\ In (t, ts) issued /\ (now - Z.of_N ts * ns_per_s <= ttl)%Z /\
+                t_cookie tg = scookie L H (t, ts).
 Proof. exact admission. Qed.
 Print Assumptions C04_admission.
 
-Theorem C04_admission_interleaved : forall v e s t p oc s' sid uid issued,
-  (forall tg, parse_tags p = Ok tg -> firstn 32 (t_cookie tg) = e_H e (macd t (t_cookie tg)) ->
-              In (macd t (t_cookie tg)) (map enc_issue issued)) ->
+Theorem C04_admission_interleaved : forall v e s t p oc s' sid uid L H ttl now issued, lawful L ->
+  (forall c t', e_val e c t' = true -> svalidate L H ttl now c t' = true) ->
+  (forall tg tag tsb, parse_tags p = Ok tg -> sc_unpack L (t_cookie tg) = Some (tag, tsb) ->
+                      tag = H (sc_msg L t tsb) -> In (sc_msg L t tsb) (map (smsg L) issued)) ->
   Forall wf_issue issued -> wf_tuple t ->
   step v e s (PBEGIN t p oc) = Some (s', OPend sid uid) ->
-  exists ts, In (t, ts) issued /\ (e_now_ns e - Z.of_N ts * ns_per_s <= e_ttl e)%Z.
+  exists ts tg, parse_tags p = Ok tg /\ In (t, ts) issued /\ (now - Z.of_N ts * ns_per_s <= ttl)%Z /\
+                t_cookie tg = scookie L H (t, ts).
 Proof. exact admission_pend. Qed.
 Print Assumptions C04_admission_interleaved.
 
 Example C04_admission_nonvacuous :
-  (forall tg, parse_tags padrOne = Ok tg -> firstn 32 (t_cookie tg) = oneH (macd tA (t_cookie tg)) ->
-              In (macd tA (t_cookie tg)) (map enc_issue [(tA, 1000)])) /\
+  lawful head_scheme /\
+  (forall c t', e_val envOne c t' = true -> svalidate head_scheme oneH 60000000000 1000500000000 c t' = true) /\
+  (forall tg tag tsb, parse_tags padrOne = Ok tg -> sc_unpack head_scheme (t_cookie tg) = Some (tag, tsb) ->
+      tag = oneH (sc_msg head_scheme tA tsb) -> In (sc_msg head_scheme tA tsb) (map (smsg head_scheme) [(tA, 1000)])) /\
   Forall wf_issue [(tA, 1000)] /\ wf_tuple tA /\
   (exists s', step Repaired envOne st0 (PADR tA padrOne Policy) = Some (s', OPads 1 0)) /\
-  oneH (enc_issue (tB, 1000)) <> firstn 32 (generate oneH 1000 tA) /\
+  oneH (smsg head_scheme (tB, 1000)) <> oneH (smsg head_scheme (tA, 1000)) /\
   (exists s', step Repaired envOne st0 (PADR tB padrOne Policy) = Some (s', ONone)).
 Proof. exact admission_nonvacuous. Qed.
 Print Assumptions C04_admission_nonvacuous.
@@ -255,8 +319,8 @@ Print Assumptions C04_sid_distinct_nonzero_unreserved.
 Theorem C04_race_refuted : forall v e s tA tB pA pB tgA tgB k,
   v_reserve v = false -> 0 < norm_next v (next s) < 65536 -> 0 < k < 65536 -> pend s = [] ->
   by_sid s !! k = None -> (forall j, 0 < j < 65536 -> j <> k -> by_sid s !! j <> None) ->
-  parse_tags pA = Ok tgA -> validate (e_H e) (e_ttl e) (e_now_ns e) (t_cookie tgA) tA = true -> e_grp e tA = true ->
-  parse_tags pB = Ok tgB -> validate (e_H e) (e_ttl e) (e_now_ns e) (t_cookie tgB) tB = true -> e_grp e tB = true ->
+  parse_tags pA = Ok tgA -> e_val e (t_cookie tgA) tA = true -> e_grp e tA = true ->
+  parse_tags pB = Ok tgB -> e_val e (t_cookie tgB) tB = true -> e_grp e tB = true ->
   tA <> tB ->
   exists s4 x y,
     run v e s [PBEGIN tA pA Policy; PBEGIN tB pB Policy; PCOMMIT (ctr s); PCOMMIT (N.succ (ctr s))] =
@@ -310,7 +374,7 @@ Print Assumptions C04_hasync_nonvacuous.
 
 (* the id a PADR gets is a free choice: ANY id in 1..65535 that is neither indexed nor reserved is installed ... *)
 Theorem C04_sid_any_admissible_choice : forall v e s t p tg c, parse_tags p = Ok tg ->
-  validate (e_H e) (e_ttl e) (e_now_ns e) (t_cookie tg) t = true -> e_grp e t = true ->
+  e_val e (t_cookie tg) t = true -> e_grp e t = true ->
   0 < c < 65536 -> id_used v s c = false ->
   exists s', step v e s (PADR t p (Chose c)) = Some (s', OPads c (ctr s)) /\
     by_sid s' !! c = Some {| s_uid := ctr s; s_sid := c; s_tup := t |}.
@@ -319,14 +383,14 @@ Print Assumptions C04_sid_any_admissible_choice.
 
 (* ... an id that is 0, out of range, indexed or reserved is not a step at all (the check reports it) ... *)
 Theorem C04_sid_inadmissible_choice : forall v e s t p tg c, parse_tags p = Ok tg ->
-  validate (e_H e) (e_ttl e) (e_now_ns e) (t_cookie tg) t = true -> e_grp e t = true ->
+  e_val e (t_cookie tg) t = true -> e_grp e t = true ->
   c = 0 \/ 65536 <= c \/ id_used v s c = true -> step v e s (PADR t p (Chose c)) = None.
 Proof. exact padr_choice_inadmissible. Qed.
 Print Assumptions C04_sid_inadmissible_choice.
 
 (* ... a refusal is admissible only when no id is free ... *)
 Theorem C04_sid_refusal_needs_full : forall v e s t p tg j, parse_tags p = Ok tg ->
-  validate (e_H e) (e_ttl e) (e_now_ns e) (t_cookie tg) t = true -> e_grp e t = true ->
+  e_val e (t_cookie tg) t = true -> e_grp e t = true ->
   0 < j < 65536 -> id_used v s j = false -> step v e s (PADR t p Refused) = None.
 Proof. exact padr_refusal_inadmissible. Qed.
 Print Assumptions C04_sid_refusal_needs_full.
@@ -346,7 +410,7 @@ Print Assumptions C04_table_invariant.
 (* not by never allocating: while one of the 65535 ids is neither indexed nor reserved a valid PADR gets
    such an id, non-zero, wherever the counter stands (the scan never runs out of fuel) *)
 Theorem C04_sid_alloc_complete : forall v e s t p tg, reserving v -> Inv s -> parse_tags p = Ok tg ->
-  validate (e_H e) (e_ttl e) (e_now_ns e) (t_cookie tg) t = true -> e_grp e t = true ->
+  e_val e (t_cookie tg) t = true -> e_grp e t = true ->
   (exists j, 0 < j < 65536 /\ id_used v s j = false) ->
   exists s' sid, step v e s (PADR t p Policy) = Some (s', OPads sid (ctr s)) /\ 0 < sid < 65536 /\
     id_used v s sid = false /\ by_sid s' !! sid = Some {| s_uid := ctr s; s_sid := sid; s_tup := t |}.
@@ -364,7 +428,7 @@ Print Assumptions C04_sid_full.
 (* id space full, the code as first found (no id-0 guard; fixed by 731c2cc): answered with session-id 0 *)
 Theorem C04_sid_full_refuted : forall v e s t p tg, v_sid_guard v = false -> 0 < next s < 65536 ->
   (forall j, 0 < j < 65536 -> id_used v s j = true) ->
-  parse_tags p = Ok tg -> validate (e_H e) (e_ttl e) (e_now_ns e) (t_cookie tg) t = true -> e_grp e t = true ->
+  parse_tags p = Ok tg -> e_val e (t_cookie tg) t = true -> e_grp e t = true ->
   exists s', step v e s (PADR t p Policy) = Some (s', OPads 0 (ctr s)) /\
     by_sid s' !! 0 = Some {| s_uid := ctr s; s_sid := 0; s_tup := t |}.
 Proof. exact padr_full_defective. Qed.
